@@ -712,7 +712,12 @@ func Map.Range#lk
 // anything but expunging or un-expunging, which need the mutex). What is checked: no run-time panic whatever the
 // others did, every write of the cell is a compare-and-swap - a blind atomic.StorePointer is an obligation
 // (`blind-store`) that holds only where the contract says what may be overwritten - and, for the Locked helpers, what
-// they report about "expunged" is true when they return. Lock-freedom (termination of the retry loops) is not shown.
+// they report about "expunged" is true when they return. The `instant` clauses say that what a helper returns is true
+// of the cell at its LAST atomic step (nothing interferes between that step and the return in this model): a helper that
+// gives up after a lost race and reports "absent" / "not stored" without having seen it fails them. Lock-freedom
+// (termination of the retry loops) is not shown. The loop clause `p == m.p` is for the shape `for p := load; ...; p = load`;
+// in the present shape p lives inside the loop body, the clause names nothing at the loop head and is left out (engine
+// note in the evidence) - it is there so that reshaping the loop keeps the proof.
 func entry.load#cc
   property C03, C05, C09
   opt cellhavoc on
